@@ -140,6 +140,17 @@ var ruleLowerCase = &core.Rule{ID: "R12.3", Min: 4,
 				}
 				call, ok := v.(*ssa.Call)
 				s.Check(ok && core.CalleeIs(&call.Call, "strings", "ToLower"), key, c.Pos(r.Pos()), "strings.ToLower(...)", "a declared XML encoding label is returned without lower-casing")
+				if ok && core.CalleeIs(&call.Call, "strings", "ToLower") {
+					// provenance: the label must be extracted from the declaration token itself
+					var tok ssa.Value
+					for _, ci := range core.Calls(f) {
+						if isXMLDecoderCall(ci.Common(), "RawToken") || isXMLDecoderCall(ci.Common(), "Token") {
+							tok = ci.Value()
+						}
+					}
+					s.Check(tok != nil && derivesFrom(call.Call.Args[0], tok, 0, map[ssa.Value]bool{}), key+": label comes from the declaration token", c.Pos(r.Pos()), "data-dependent on the token returned by the decoder",
+						"the returned label is not computed from the <?xml ... ?> token the decoder returned (e.g. it is taken from the CharsetReader callback, which the decoder does not call for UTF-8): some declared encodings would be ignored")
+				}
 			}
 		}
 		// HTML: function calling TagAttr
@@ -494,6 +505,69 @@ func hasTokenizerNext(b *ssa.BasicBlock) bool {
 	for _, in := range b.Instrs {
 		if ci, ok := in.(ssa.CallInstruction); ok && core.MethodCalleeIs(ci.Common(), pkgHTML, "Tokenizer", "Next") {
 			return true
+		}
+	}
+	return false
+}
+
+
+// derivesFrom: v is computed (through extracts, assertions, local cells,
+// field reads, conversions, slicing, phis and module / string helper calls)
+// from src.
+func derivesFrom(v, src ssa.Value, depth int, seen map[ssa.Value]bool) bool {
+	if v == nil || depth > 14 || seen[v] {
+		return false
+	}
+	seen[v] = true
+	if v == src {
+		return true
+	}
+	switch x := v.(type) {
+	case *ssa.Extract:
+		return derivesFrom(x.Tuple, src, depth+1, seen)
+	case *ssa.TypeAssert:
+		return derivesFrom(x.X, src, depth+1, seen)
+	case *ssa.Convert:
+		return derivesFrom(x.X, src, depth+1, seen)
+	case *ssa.ChangeType:
+		return derivesFrom(x.X, src, depth+1, seen)
+	case *ssa.Slice:
+		return derivesFrom(x.X, src, depth+1, seen)
+	case *ssa.FieldAddr:
+		return derivesFrom(x.X, src, depth+1, seen)
+	case *ssa.Field:
+		return derivesFrom(x.X, src, depth+1, seen)
+	case *ssa.Phi:
+		for _, e := range x.Edges {
+			if derivesFrom(e, src, depth+1, seen) {
+				return true
+			}
+		}
+	case *ssa.UnOp:
+		if x.Op == token.MUL {
+			if fa, ok := x.X.(*ssa.FieldAddr); ok {
+				return derivesFrom(fa.X, src, depth+1, seen)
+			}
+			if al, ok := x.X.(*ssa.Alloc); ok {
+				// a local cell: what is stored into it in this function
+				for _, ref := range *al.Referrers() {
+					if st, ok := ref.(*ssa.Store); ok && st.Addr == ssa.Value(al) && st.Parent() == x.Parent() && derivesFrom(st.Val, src, depth+1, seen) {
+						return true
+					}
+				}
+			}
+		}
+	case *ssa.Alloc:
+		for _, ref := range *x.Referrers() {
+			if st, ok := ref.(*ssa.Store); ok && st.Addr == ssa.Value(x) && st.Parent() == x.Parent() && derivesFrom(st.Val, src, depth+1, seen) {
+				return true
+			}
+		}
+	case *ssa.Call:
+		for _, a := range x.Call.Args {
+			if derivesFrom(a, src, depth+1, seen) {
+				return true
+			}
 		}
 	}
 	return false
